@@ -43,6 +43,7 @@ type c01Pair struct {
 	A      string   `json:"program_a"`
 	B      string   `json:"program_b"`
 	Input  string   `json:"input"`
+	Vars   []string `json:"vars,omitempty"` // Config.Vars (name, value, …)
 	Tags   []string `json:"tags,omitempty"` // facts about the case used by the finding classifier
 	NonTri bool     `json:"-"`
 }
@@ -53,9 +54,9 @@ func c01Parse(src string) (*parser.Program, error) {
 
 // c01RunProg runs the real interpreter with a deadline: with a mutated compiler or VM a generated program may loop for ever;
 // that must show up as a failing case ("timeout"), not as a hanging harness.
-func c01RunProg(prog *parser.Program, input string) (res vh.RunResult) {
+func c01RunProg(prog *parser.Program, input string, vars ...string) (res vh.RunResult) {
 	var out bytes.Buffer
-	cfg := &interp.Config{Stdin: strings.NewReader(input), Output: &out, Error: io.Discard, Environ: []string{}}
+	cfg := &interp.Config{Stdin: strings.NewReader(input), Output: &out, Error: io.Discard, Environ: []string{}, Vars: vars}
 	defer func() {
 		if r := recover(); r != nil {
 			res.Panic = fmt.Sprint(r)
@@ -151,10 +152,21 @@ func runC01(c *vh.Ctx) {
 	pairs = append(pairs, c01CallFrames(c)...)
 	pairs = append(pairs, c01SignOfZero(c)...)
 	pairs = append(pairs, c01LongRuns(c)...)
+	pairs = append(pairs, c01Wide(c)...)
+	pairs = append(pairs, c01CSVJoin(c)...)
 	c01Reuse(c)
 	nDirected := len(pairs)
 	rnd := c01RandomPairs(c, c.N(1200, 12000))
 	pairs = append(pairs, rnd...)
+	if only := os.Getenv("C01_ONLY"); only != "" { // debugging aid: run one family only
+		var keep []c01Pair
+		for _, p := range pairs {
+			if p.Family == only {
+				keep = append(keep, p)
+			}
+		}
+		pairs, nDirected = keep, 0
+	}
 	c.Note(fmt.Sprintf("directed pairs %d, random pairs %d", nDirected, len(rnd)))
 
 	type outT struct {
@@ -173,14 +185,14 @@ func runC01(c *vh.Ctx) {
 			o.a = "PARSE: " + ea.Error()
 		} else {
 			t := time.Now()
-			o.a, o.okA = c01Canon(c01RunProg(pa, p.Input)), true
+			o.a, o.okA = c01Canon(c01RunProg(pa, p.Input, p.Vars...)), true
 			o.da = time.Since(t)
 		}
 		if eb != nil {
 			o.b = "PARSE: " + eb.Error()
 		} else {
 			t := time.Now()
-			o.b, o.okB = c01Canon(c01RunProg(pb, p.Input)), true
+			o.b, o.okB = c01Canon(c01RunProg(pb, p.Input, p.Vars...)), true
 			o.db = time.Since(t)
 		}
 		if o.okA && o.okB {
@@ -205,7 +217,7 @@ func runC01(c *vh.Ctx) {
 			c.Hit("skipped:slow-program")
 			continue
 		}
-		c.Eval(p.A+"\x00"+p.B+"\x00"+p.Input, o.codeDiffer)
+		c.Eval(p.A+"\x00"+p.B+"\x00"+p.Input+"\x00"+strings.Join(p.Vars, "\x00"), o.codeDiffer)
 		c.OracleCase()
 		c.Hit("oracle:" + p.Family)
 		if p.Key != "" {
@@ -220,6 +232,9 @@ func runC01(c *vh.Ctx) {
 			c.Sample(map[string]interface{}{"pair": p, "result": o.a})
 		}
 		if o.a != o.b {
+			if p.Family == "wide" {
+				p, o.a, o.b = wideMinimise(p, o.a, o.b)
+			}
 			c.Fail(vh.Failure{Kind: "oracle", What: "two spellings of the same program behave differently (" + p.Family + ")",
 				Finding: c01Classify(p), Case: p, Got: o.b, Want: o.a})
 		}
